@@ -206,6 +206,12 @@ func check(c Case) (kind, what string, nt bool) {
 	return "", "", nt
 }
 
+var vocab = []string{"XYZ ", "Lab ", "Luv ", "YCbr", "Yxy ", "RGB ", "GRAY", "HSV ", "HLS ", "CMYK", "CMY ", "2CLR", "3CLR", "4CLR", "5CLR", "6CLR", "7CLR", "8CLR", "9CLR", "ACLR", "BCLR", "CCLR", "DCLR", "ECLR", "FCLR",
+	"MCH1", "MCH2", "MCH3", "MCH4", "MCH5", "MCH6", "MCH7", "MCH8", "MCH9", "MCHA", "MCHB", "MCHC", "MCHD", "MCHE", "MCHF", "nc01", "nc0F",
+	"scnr", "mntr", "prtr", "link", "spac", "abst", "nmcl", "cenc", "mid ", "mlnk", "mvis",
+	"APPL", "MSFT", "SGI ", "SUNW", "TGNT", "*nix", "ADBE", "ACMS", "appl", "CCMS", "UCCM", "UCMS", "EFI ", "FF  ", "EXAC", "HCMM", "argl", "LgoS", "HDM ", "lcms", "KCMS", "MCML", "WCS ", "SIGN", "RGMS", "SICC", "32BT", "zc00",
+	"none", "\x00\x00\x00\x00", "acsp", "desc", "mluc", "    "}
+
 func base() [128]byte {
 	var h [128]byte
 	copy(h[36:], "acsp")
@@ -305,11 +311,6 @@ func TestC16(t *testing.T) {
 	}
 	// vocabulary: every signature that ICC.1 (or common practice) defines, in every signature-typed field; a
 	// decoder that "normalises" some of them no longer reports the bytes that are there
-	vocab := []string{"XYZ ", "Lab ", "Luv ", "YCbr", "Yxy ", "RGB ", "GRAY", "HSV ", "HLS ", "CMYK", "CMY ", "2CLR", "3CLR", "4CLR", "5CLR", "6CLR", "7CLR", "8CLR", "9CLR", "ACLR", "BCLR", "CCLR", "DCLR", "ECLR", "FCLR",
-		"MCH1", "MCH2", "MCH3", "MCH4", "MCH5", "MCH6", "MCH7", "MCH8", "MCH9", "MCHA", "MCHB", "MCHC", "MCHD", "MCHE", "MCHF", "nc01", "nc0F",
-		"scnr", "mntr", "prtr", "link", "spac", "abst", "nmcl", "cenc", "mid ", "mlnk", "mvis",
-		"APPL", "MSFT", "SGI ", "SUNW", "TGNT", "*nix", "ADBE", "ACMS", "appl", "CCMS", "UCCM", "UCMS", "EFI ", "FF  ", "EXAC", "HCMM", "argl", "LgoS", "HDM ", "lcms", "KCMS", "MCML", "WCS ", "SIGN", "RGMS", "SICC", "32BT", "zc00",
-		"none", "\x00\x00\x00\x00", "acsp", "desc", "mluc", "    "}
 	for _, off := range []int{4, 12, 16, 20, 40, 48, 52, 80} {
 		for _, v := range vocab {
 			h := base()
@@ -318,6 +319,30 @@ func TestC16(t *testing.T) {
 		}
 	}
 	ev.Class("signature-vocabulary", int64(8*len(vocab)))
+	// pairs: a defined signature in one field and a small number in a numeric field, written big-endian (as the
+	// specification says) or byte-swapped (as a careless writer would): a decoder that second-guesses one field
+	// from another no longer reports the bytes that are there
+	{
+		var np int64
+		nums := []uint32{0, 1, 2, 3, 0x01000000, 0x02000000, 0x03000000, 0x00010000, 0x00000100, 0x80000000}
+		for _, off := range []int{4, 12, 16, 20, 40, 48, 52, 80} {
+			for vi, v := range vocab {
+				for _, noff := range []int{0, 44, 60, 64, 68, 72, 76} {
+					if !ev.Thorough() && (vi+noff/4+off/4)%3 != 0 {
+						continue // quick: a third of the triples
+					}
+					for _, n := range nums {
+						h := base()
+						copy(h[off:], v)
+						binary.BigEndian.PutUint32(h[noff:], n)
+						run(h, fmt.Sprintf("signature %q at offset %d with %#x at offset %d", v, off, n, noff))
+						np++
+					}
+				}
+			}
+		}
+		ev.Class("signature-number-pairs", np)
+	}
 	sample := ones
 	ev.Sample(map[string]any{"header_hex": hex.EncodeToString(sample[:]), "kind": "all-ones"})
 	hb := base()
@@ -375,6 +400,29 @@ func TestC16(t *testing.T) {
 			h[36+b/8] ^= 1 << uint(b%8)
 		default:
 			copy(h[36:], "acsp")
+		}
+		// realistic values in fields that might steer how other fields are read: version, class, colour space,
+		// PCS, platform, small flags / intent / attributes
+		if rapid.Bool().Draw(rt, "realistic") {
+			if rapid.Bool().Draw(rt, "ver") {
+				h[8] = byte(rapid.SampledFrom([]int{2, 2, 4, 4, 5, 1, 0}).Draw(rt, "major"))
+				h[9] = byte(rapid.SampledFrom([]int{0x00, 0x10, 0x20, 0x30, 0x40, 0x44, 0x0F}).Draw(rt, "minor"))
+				h[10], h[11] = 0, 0
+			}
+			for _, off := range []int{4, 12, 16, 20, 40, 48, 52, 80} {
+				if rapid.Bool().Draw(rt, "sigvocab") {
+					copy(h[off:], rapid.SampledFrom(vocab).Draw(rt, "sig"))
+				}
+			}
+			if rapid.Bool().Draw(rt, "smallflags") {
+				binary.BigEndian.PutUint32(h[44:], uint32(rapid.IntRange(0, 3).Draw(rt, "flags")))
+				binary.BigEndian.PutUint32(h[64:], uint32(rapid.IntRange(0, 3).Draw(rt, "intent")))
+				if rapid.Bool().Draw(rt, "swapped") { // the same numbers written little-endian
+					binary.LittleEndian.PutUint32(h[44:], binary.BigEndian.Uint32(h[44:]))
+					binary.LittleEndian.PutUint32(h[64:], binary.BigEndian.Uint32(h[64:]))
+				}
+				binary.BigEndian.PutUint64(h[56:], uint64(rapid.IntRange(0, 15).Draw(rt, "attrs")))
+			}
 		}
 		if rapid.Bool().Draw(rt, "validdate") {
 			binary.BigEndian.PutUint16(h[24:], uint16(rapid.IntRange(1, 9999).Draw(rt, "y")))
